@@ -185,6 +185,18 @@ CHECKS["C18"] = ("Url.tla",
     "Trusted: TLC, urllib.parse.urlsplit as the reader of the resulting URL, the token concretisation in the adapter.",
     "DESIGN.md 5 C18")
 
+CHECKS["C20"] = ("Middleware.tla",
+    "TLC model check of an abstract response travelling through a stack of capturing layers (Transparent, OnlyThatHeader, "
+    "InnerOnce); witness FoldAll=TRUE (Set-Cookie folded) must violate Transparent; every (recipe, stack) behaviour executed on "
+    "real middleware stacks on both interfaces with raw inner apps (list / iterator bodies, several body messages); every "
+    "response recipe (all response classes, streams, files with and without zero-copy, cookies) compared bare vs wrapped; "
+    "view decorator likewise",
+    "Stacks of 0..2 (thorough 3) layers over {identity, edit one header} x abstract responses with 0-3 chunks, several "
+    "Set-Cookie lines, unknown status codes; one known finding (repeated non-cookie header lines are folded) is listed in "
+    "known_findings.json.",
+    "Trusted: TLC, servers.py. Finite inner responses only (the ASGI capture buffers the inner response).",
+    "DESIGN.md 5 C20")
+
 NOT_YET = {}
 
 ALL = ["C%02d" % i for i in range(1, 21)]
